@@ -15,8 +15,9 @@ impl InstructionGenerator {
         self.generate_case_blocks(case_blocks, else_block.is_some(), pos);
         self.generate_else_block(else_block, pos);
         // need to pop value from stack because it was pushed by `generate_eval_select_case_expr`
-        self.push(Instruction::PopValueStackIntoA, pos);
+        // (on every path: a matched CASE block jumps to the end-select label)
         self.label(labels::end_select(), pos);
+        self.push(Instruction::PopValueStackIntoA, pos);
     }
 
     /// Evaluate SELECT CASE x into A
